@@ -155,11 +155,15 @@ func runView(c ViewCase) (feat map[string]int, err error) {
 		var ms []*cluster.Member
 		next := map[int]bool{0: true}
 		dup := false
+		nshared := 0
 		for _, v := range snap {
 			// entries >= 100 name the same member ID reported from another host (the node moved, or the
 			// provider corrected its address): the view is BY MEMBER ID, so this is a member that stayed
-			i, moved := v%100, v >= 100
-			if i < 1 || i >= len(kindsOf) || v < 0 || v >= 200 {
+			// entries >= 200: the member is reported behind an address it shares with other members
+			// (a node that came back under a new ID while its old entry is still listed, several nodes
+			// behind one advertised address): different IDs, one host - still different members
+			i, moved, shared := v%100, v >= 100 && v < 200, v >= 200
+			if i < 1 || i >= len(kindsOf) || v < 0 || v >= 300 {
 				return nil, nil
 			}
 			if next[i] {
@@ -171,6 +175,10 @@ func runView(c ViewCase) (feat map[string]int, err error) {
 				m.Host = fmt.Sprintf("127.0.0.1:%d", 5000+i)
 				feat["member-reported-with-another-host"]++
 			}
+			if shared {
+				m.Host = "127.0.0.1:7000"
+				nshared++
+			}
 			ms = append(ms, m)
 		}
 		at := 0
@@ -179,6 +187,9 @@ func runView(c ViewCase) (feat map[string]int, err error) {
 		}
 		if at < 0 || at > len(ms) {
 			at = len(ms)
+		}
+		if nshared >= 2 {
+			feat["members-with-different-ids-behind-one-host"]++
 		}
 		ms = append(ms[:at:at], append([]*cluster.Member{member(0)}, ms[at:]...)...)
 		e.Send(cl.PID(), &cluster.Members{Members: ms})
@@ -251,8 +262,11 @@ func TestMembershipView(t *testing.T) {
 		for i := 0; i < n; i++ {
 			c.Snaps = append(c.Snaps, rapid.SliceOfN(rapid.Custom(func(t *rapid.T) int {
 				v := rapid.IntRange(1, len(kindsOf)-1).Draw(t, "member")
-				if rapid.IntRange(0, 5).Draw(t, "moved") == 0 {
+				switch rapid.IntRange(0, 7).Draw(t, "moved") {
+				case 0:
 					v += 100
+				case 1, 2:
+					v += 200
 				}
 				return v
 			}), 0, 8).Draw(t, "snap"))
